@@ -191,7 +191,7 @@ def tasks(tier):
     """(mode, group index, victim index, [observed indices]) -- the unit of
     parallel work.  abort: everything in the group is observed afterwards.
     preempt: the switched-to 'thread' runs the victim's own configuration
-    (and, thorough, for the first two members, its next sibling); afterwards
+    (and, thorough, for the first member also its next sibling); afterwards
     the whole group is observed.  Quick tier: the first two members of each group are preempted,
     thorough: all."""
     out = []
@@ -204,8 +204,8 @@ def tasks(tier):
             # keys, duplicated appends); a sibling as the other thread adds
             # the key-confusion cases
             others = [vi]
-            if tier == "thorough" and vi < 2:
-                others.append((vi + 1) % len(g))
+            if tier == "thorough" and vi == 0:
+                others.append(1 % len(g))
             for oi in others:
                 rest = list(range(len(g)))
                 out.append(("preempt", gi, vi, [oi] + rest))
